@@ -2075,7 +2075,11 @@ class Cluster(object):
             if future is not None:
                 have_future = True
                 futures.add(future)
-                future.add_done_callback(future_completed)
+
+        # the callback decides that every pool is ready by looking at `futures`: register it
+        # only once the set is complete (a future that is already done runs it at once)
+        for future in tuple(futures):
+            future.add_done_callback(future_completed)
 
         if not have_future:
             self._finalize_add(host)
